@@ -132,6 +132,108 @@ fn oracle(seed: u64, n: u64) {
     }
 }
 
+
+mod attack {
+    //! Crafted-prover attacks on transfer verification ("any alteration of ... proof fails verification"
+    //! must also hold for proofs no honest prover produces).  `Truncated` hashes the public data of the
+    //! full statement but commits/responds for a statement with one chunk left out: a verifier that
+    //! does not check that the response has one component per chunk accepts it.
+    #![allow(non_snake_case)]
+    use super::*;
+    use concordium_base::{
+        bulletproofs::range_proof::prove_given_scalars as bulletprove,
+        curve_arithmetic::{Curve, Value},
+        encrypted_transfers::proofs::*,
+        id::id_proof_types::ProofVersion,
+        pedersen_commitment::{CommitmentKey, Randomness as PedersenRandomness},
+        random_oracle::{RandomOracle, TranscriptProtocol, Challenge},
+        sigma_protocols::{com_eq::ComEqSecret, common::*, enc_trans::*},
+        elgamal::Randomness,
+    };
+    use std::rc::Rc;
+
+    struct Truncated<C: Curve> { full: EncTrans<C>, cut: EncTrans<C> }
+    impl<C: Curve> SigmaProtocol for Truncated<C> {
+        type CommitMessage = <EncTrans<C> as SigmaProtocol>::CommitMessage;
+        type ProtocolChallenge = <EncTrans<C> as SigmaProtocol>::ProtocolChallenge;
+        type ProverState = <EncTrans<C> as SigmaProtocol>::ProverState;
+        type Response = <EncTrans<C> as SigmaProtocol>::Response;
+        type SecretData = <EncTrans<C> as SigmaProtocol>::SecretData;
+        fn public(&self, ro: &mut impl TranscriptProtocol) { self.full.public(ro) }
+        fn compute_commit_message<R: rand::Rng>(&self, csprng: &mut R) -> Option<(Self::CommitMessage, Self::ProverState)> {
+            self.cut.compute_commit_message(csprng)
+        }
+        fn get_challenge(&self, challenge: &Challenge) -> Self::ProtocolChallenge { self.cut.get_challenge(challenge) }
+        fn compute_response(&self, secret: Self::SecretData, state: Self::ProverState, challenge: &Self::ProtocolChallenge) -> Option<Self::Response> {
+            self.cut.compute_response(secret, state, challenge)
+        }
+        fn extract_commit_message(&self, challenge: &Self::ProtocolChallenge, response: &Self::Response) -> Option<Self::CommitMessage> {
+            self.cut.extract_commit_message(challenge, response)
+        }
+        #[cfg(test)]
+        fn with_valid_data<R: rand::Rng>(_: usize, _: &mut R, _: impl FnOnce(Self, Self::SecretData, &mut R)) { unimplemented!() }
+    }
+
+    /// Returns Some(accepted) for a forged transfer; None if the forgery could not even be built.
+    pub fn truncated_forgery(seed: u64, cut_transfer: bool) -> Option<bool> {
+        let mut csprng = StdRng::seed_from_u64(seed);
+        let context = GlobalContext::<G1>::generate_size(String::from("verif-c12"), 64);
+        let h = context.encryption_in_exponent_generator();
+        let gens = context.bulletproof_generators().take(64);
+        let sk_sender: SecretKey<G1> = SecretKey::generate(context.elgamal_generator(), &mut csprng);
+        let pk_sender = PublicKey::from(&sk_sender);
+        let sk_receiver: SecretKey<G1> = SecretKey::generate(context.elgamal_generator(), &mut csprng);
+        let pk_receiver = PublicKey::from(&sk_receiver);
+        let balance = 5u64;
+        let (enc_balance, _) = et::encrypt_amount(&context, &pk_sender, Amount::from_micro_ccd(balance), &mut csprng);
+        let S = enc_balance.join();
+        // value out of thin air in the high chunk of either the transferred or the remaining amount
+        let (a_chunks, s_prime_chunks) = if cut_transfer { ([balance, 1000u64], [0u64, 0u64]) } else { ([0u64, 0u64], [balance, 1000u64]) };
+        let (A, A_rand): (Vec<_>, Vec<_>) = a_chunks.iter().map(|&x| pk_receiver.encrypt_exponent_rand_given_generator(&Value::<G1>::from(x), h, &mut csprng)).unzip();
+        let (S_prime, S_prime_rand): (Vec<_>, Vec<_>) = s_prime_chunks.iter().map(|&x| pk_sender.encrypt_exponent_rand_given_generator(&Value::<G1>::from(x), h, &mut csprng)).unzip();
+        let mut ro = RandomOracle::domain("EncryptedTransfer");
+        ro.append_message(b"ctx", &&context);
+        ro.append_message(b"receiver_pk", &&pk_receiver);
+        ro.append_message(b"sender_pk", &&pk_sender);
+        let full = gen_enc_trans_proof_info(&pk_sender, &pk_receiver, &S, &A, &S_prime, h);
+        let cut = if cut_transfer { gen_enc_trans_proof_info(&pk_sender, &pk_receiver, &S, &A[..1], &S_prime, h) }
+                  else { gen_enc_trans_proof_info(&pk_sender, &pk_receiver, &S, &A, &S_prime[..1], h) };
+        let mk = |xs: &[u64], rs: &[Randomness<G1>]| -> Vec<ComEqSecret<G1>> {
+            xs.iter().zip(rs.iter()).map(|(x, r)| ComEqSecret::<G1> { r: PedersenRandomness::from_u64(*x), a: r.to_value() }).collect()
+        };
+        let secret = EncTransSecret {
+            dlog_secret: Rc::new(sk_sender.scalar),
+            encexp1_secrets: if cut_transfer { mk(&a_chunks[..1], &A_rand[..1]) } else { mk(&a_chunks, &A_rand) },
+            encexp2_secrets: if cut_transfer { mk(&s_prime_chunks, &S_prime_rand) } else { mk(&s_prime_chunks[..1], &S_prime_rand[..1]) },
+        };
+        let accounting = prove(&mut ro, &Truncated { full, cut }, secret, &mut csprng)?;
+        let to_scalars = |xs: &[u64]| -> Vec<<G1 as Curve>::Scalar> { xs.iter().copied().map(G1::scalar_from_u64).collect() };
+        let to_pedrand = |rs: &[Randomness<G1>]| -> Vec<PedersenRandomness<G1>> { rs.iter().map(|x| PedersenRandomness::from_value(&x.to_value())).collect() };
+        let bp_a = bulletprove(ProofVersion::Version1, &mut ro, &mut csprng, 32, 2, &to_scalars(&a_chunks), &gens,
+            &CommitmentKey { g: *h, h: pk_receiver.key }, &to_pedrand(&A_rand))?;
+        let bp_s = bulletprove(ProofVersion::Version1, &mut ro, &mut csprng, 32, 2, &to_scalars(&s_prime_chunks), &gens,
+            &CommitmentKey { g: *h, h: pk_sender.key }, &to_pedrand(&S_prime_rand))?;
+        let forged = EncryptedAmountTransferData {
+            remaining_amount: EncryptedAmount { encryptions: [S_prime[0], S_prime[1]] },
+            transfer_amount: EncryptedAmount { encryptions: [A[0], A[1]] },
+            index: 0u64.into(),
+            proof: EncryptedAmountTransferProof { accounting, transfer_amount_correct_encryption: bp_a, remaining_amount_correct_encryption: bp_s },
+        };
+        Some(et::verify_transfer_data(&context, &pk_receiver, &pk_sender, &enc_balance, &forged))
+    }
+}
+
+fn attacks(seed: u64) {
+    for (name, cut) in [("truncated-response-transfer-chunk", true), ("truncated-response-remaining-chunk", false)] {
+        match guarded(|| attack::truncated_forgery(seed, cut)) {
+            Ok(Some(acc)) => println!("{}", json!({"k":"attack","name":name,"built":true,"accepted":acc,"ok":!acc,
+                "what":"balance 5, forged transfer creates 1000*2^32 out of thin air; sigma response omits that chunk"})),
+            Ok(None) => println!("{}", json!({"k":"attack","name":name,"built":false,"ok":true})),
+            Err(e) => println!("{}", json!({"k":"attack","name":name,"built":false,"ok":true,"panic":e})),
+        }
+    }
+}
+
 fn sc_hex(x: &<G1 as concordium_base::curve_arithmetic::Curve>::Scalar) -> String { hlib::hex(&ser(x)) }
 
 /// Encryption cases for the in-the-exponent correspondence: prints secret key, amounts,
@@ -186,5 +288,5 @@ fn main() {
     let a: Vec<String> = std::env::args().collect();
     let seed: u64 = a[2].parse().unwrap();
     let n: u64 = a[3].parse().unwrap();
-    match a[1].as_str() { "chunks" => chunks(seed, n), "oracle" => oracle(seed, n), "encgen" => encgen(seed, n), _ => panic!("mode") }
+    match a[1].as_str() { "chunks" => chunks(seed, n), "oracle" => oracle(seed, n), "encgen" => encgen(seed, n), "attack" => attacks(seed), _ => panic!("mode") }
 }
